@@ -27,10 +27,13 @@
 package main
 
 import (
-	"path/filepath"
+	"bytes"
+	"encoding/hex"
 	"flag"
 	"fmt"
 	"os"
+	"os/exec"
+	"path/filepath"
 	"reflect"
 	"strconv"
 	"strings"
@@ -68,6 +71,10 @@ type item struct {
 	events    int
 	fails     []outcome
 	sample    string
+	// the (original, optimized) pair for the verified validator, and how to file a rejection
+	optv     string
+	optvFail func(detail string) outcome
+	hasTR    bool
 }
 
 var detRuns = 6
@@ -82,6 +89,7 @@ func main() {
 	jobs := flag.Int("j", 16, "parallel workers")
 	det := flag.Int("det", 6, "additional runs of the optimizer on identical copies (determinism)")
 	emit := flag.String("emit", "", "also write the text of every generated grammar to DIR/g<i>.peg (for whole-pipeline runs of the pigeon binary)")
+	driver := flag.String("driver", "/verif/lean/.lake/build/bin/pvdriver", "the Lean driver: every (original, optimized) pair is judged by the verified validator Opt.validate (\"\" = skip)")
 	flag.Parse()
 	detRuns = *det
 	usage := func(msg string) {
@@ -123,6 +131,12 @@ func main() {
 	}
 	close(next)
 	wg.Wait()
+	if *driver != "" {
+		if err := validateAll(*driver, items, rep); err != nil {
+			fmt.Fprintln(os.Stderr, "pvopt:", err)
+			os.Exit(2)
+		}
+	}
 	if *emit != "" {
 		if err := os.MkdirAll(*emit, 0o755); err != nil {
 			fmt.Fprintln(os.Stderr, "pvopt:", err)
@@ -362,6 +376,11 @@ func evaluate(seed int64, i, k int, lf lifts) (it *item) {
 
 	// static checks
 	entries := append([]string{g.Rules[0].Name.Val}, eps...)
+	it.optv = pvpeg.OptvLine(i+1, g, g2, entries)
+	it.optvFail = func(detail string) outcome {
+		return outcome{"validator-reject", detail, name("validator-reject"), casefile(nil, detail)}
+	}
+	it.hasTR = it.before[2] > 0 || it.before[10] > 0 // RecoveryExpr, ThrowExpr
 	have2 := map[string]bool{}
 	for _, rl := range g2.Rules {
 		have2[rl.Name.Val] = true
@@ -567,4 +586,67 @@ func firstDiff(got, want string) string {
 		return s[lo:hi]
 	}
 	return "optimizing the optimized grammar changes it at dump offset " + strconv.Itoa(i) + "\n twice ..." + cut(got) + "\n once  ..." + cut(want)
+}
+
+// validateAll hands every (original, optimized) pair to the Lean driver: the verified validator Opt.validate
+// (lean/PigeonVerif/Opt/Validate.lean, validate_sound) accepts a pair only if the rules of the optimized grammar have the
+// same normal form before and after, which is proved to mean that they match the same inputs. A rejection is filed as a
+// failure of kind validator-reject: the optimizer's output is then no longer KNOWN to preserve the language (the
+// sentence comparison above is what finds a concrete input, when there is one).
+func validateAll(driver string, items []*item, rep *pvpeg.Report) error {
+	var in bytes.Buffer
+	n := 0
+	for _, it := range items {
+		if it != nil && it.optv != "" {
+			in.WriteString(it.optv)
+			in.WriteByte('\n')
+			n++
+		}
+	}
+	if n == 0 {
+		return nil
+	}
+	cmd := exec.Command(driver)
+	cmd.Stdin = &in
+	var se bytes.Buffer
+	cmd.Stderr = &se
+	out, err := cmd.Output()
+	if err != nil {
+		return fmt.Errorf("%s: %v: %s", driver, err, se.String())
+	}
+	seen := 0
+	for _, l := range strings.Split(string(out), "\n") {
+		fs := strings.Fields(l)
+		if len(fs) < 3 || fs[0] != "optvres" {
+			continue
+		}
+		id, err := strconv.Atoi(fs[1])
+		if err != nil || id < 1 || id > len(items) || items[id-1] == nil {
+			return fmt.Errorf("%s: unexpected answer %q", driver, l)
+		}
+		seen++
+		it := items[id-1]
+		switch fs[2] {
+		case "ok":
+			rep.Count("validator", "accepted", 1)
+			if it.hasTR {
+				rep.Count("validator", "accepted_with_throw_recover_(outside_the_theorem)", 1)
+			}
+		case "reject":
+			rep.Count("validator", "rejected", 1)
+			what := strings.Join(fs[3:], " ")
+			if len(fs) == 5 {
+				if b, err := hex.DecodeString(strings.TrimPrefix(fs[4], "x")); err == nil {
+					what = fs[3] + " " + string(b)
+				}
+			}
+			it.fails = append(it.fails, it.optvFail("the verified validator (Opt.validate; C09_validated_output_preserves_the_language) rejects the optimizer's output: the normal forms before and after differ ("+what+")"))
+		default:
+			return fmt.Errorf("%s: %s", driver, l)
+		}
+	}
+	if seen != n {
+		return fmt.Errorf("%s answered %d of %d pairs: %s", driver, seen, n, se.String())
+	}
+	return nil
 }
